@@ -399,6 +399,8 @@ func RunC11(c *core.Ctx) {
 			}
 		}
 	}
+	// stores nobody listens to: no change callback, no veto
+	cfgs = append(cfgs, c11cfg{backend: "badger", ncb: 0}, c11cfg{backend: "badger", typed: true, prefix: true, ncb: 0})
 	cfgs = append(cfgs, c11cfg{backend: "mock", ncb: 1}, c11cfg{backend: "mock", ncb: 2, genids: true}, c11cfg{backend: "mock", ncb: 0})
 	var recs []interface{}
 	for _, cfg := range cfgs {
